@@ -246,6 +246,14 @@ pub fn t234(ctx: &mut Ctx, ps: &mut Parsers, input: &str, ext: u32, conv: &str, 
             }
             judge(ctx, ps, &base, input, t, ext, conv, "T3_block_comment", &format!("{v}|{ctxname}"));
         }
+        // comment bodies that look like syntax: another opener (the first `-]` closes), components, a line comment
+        // marker, nothing at all, multi-byte text
+        if rng.chance(1, 4) {
+            let body_text = *rng.pick(&["[- a [- b -]", "[- see [-2 -]", "[-[-[- -]", "[- @x{1%kg} #y{} ~z{2%min} -]", "[- -- not a line comment -]", "[--]", "[- - ] -]", "[- é 😀 ｛ -]", "[- >> k: v -]", "[- = s = -]"]);
+            let t = format!("{}{body_text}{}", &input[..ws.2], &input[ws.2..]);
+            judge(ctx, ps, &base, input, t, ext, conv, "T3_block_comment", &format!("right_edge_syntax_like_body|{ctxname}"));
+            ctx.count("T3_syntax_like_comment_body");
+        }
     }
     // T3 where the braces of a component hold only blanks (`{ }`) or nothing (`{}`): a comment there is still "no quantity"
     for w in toks.windows(2) {
